@@ -363,6 +363,48 @@ def run(tier, rep):
             rep.violation(f"linked-type-declarations-differ:special:{sname}", {"whole": tdecls(whole["go"]), "linked": tdecls(open(f"{proj}/out/linked.go").read())})
         if imps(open(f"{proj}/out/linked.go").read()) != imps(whole["go"]):
             rep.violation(f"linked-imports-differ:special:{sname}", {"whole": imps(whole["go"]), "linked": imps(open(f"{proj}/out/linked.go").read())})
+    # ---- what a package EXPORTS in unusual sizes: a type nested 70 deep, a 40-tuple, a signature of 60 parameters, 300 functions - the
+    # dependent reads all of it back from the interface file; both routes must give the same verdict
+    def nestt(w, d):
+        t = "int32"
+        for _ in range(d):
+            t = f"Vec[{t}]" if w == "vec" else f"Ref[{t}]" if w == "ref" else f"({t}, bool)"
+        return t
+    big = {"type-nested-70-vec": f"fn deep(v: {nestt('vec', 70)}) -> int32 {{ 7 }}\n", "type-nested-70-ref": f"fn deep(v: {nestt('ref', 70)}) -> int32 {{ 7 }}\n",
+           "type-nested-45-pairs": f"fn deep(v: {nestt('pair', 45)}) -> int32 {{ 7 }}\n",
+           "result-type-nested-70": f"fn deep(v: int32) -> {nestt('vec', 70)} {{ " + "vec_push(" * 70 + "v" + ", ".join([""] + ["vec_new())"] * 0) + " }\n",
+           "tuple-of-40": "fn deep(v: (" + ", ".join(["int32"] * 40) + ")) -> int32 { 7 }\n",
+           "sixty-parameters": "fn deep(" + ", ".join(f"p{i}: int32" for i in range(60)) + ") -> int32 { p0 + p59 }\n",
+           "three-hundred-functions": "".join(f"fn g{i}(x: int32) -> int32 {{ x + {i} }}\n" for i in range(300)) + "fn deep(v: int32) -> int32 { g299(v) }\n",
+           "struct-field-nested-70": f"struct Deep {{ f: {nestt('vec', 70)} }}\nfn deep(v: int32) -> int32 {{ v }}\n"}
+    big.pop("result-type-nested-70")       # (a value of that type cannot be written without 70 nested calls: the parameter form covers the reader)
+    exported = 0
+    for bn, decl in big.items():
+        bp = os.path.join(root, "exports-" + bn)
+        os.makedirs(bp + "/Lib"); os.makedirs(bp + "/out")
+        open(bp + "/Lib/lib.gom", "w").write("package Lib\n\n" + decl + "fn one() -> int32 { 1 }\n")
+        open(bp + "/main.gom", "w").write("package Main\nimport Lib\n\nfn main() {\n    let _ = string_println(int32_to_string(Lib::one()));\n    ()\n}\n")
+        a = gv("compile", [{"id": "w", "path": bp + "/main.gom"}])[0]
+        sep_ok, why = True, ""
+        for q, sp in (("Lib", bp + "/Lib/lib.gom"), ("Main", bp + "/main.gom")):
+            ok, err, pan = cli(["build", "--package", q, "--input", sp, "--interface-path", f"{bp}/out", "--output", f"{bp}/out/{q}"])
+            steps += 1
+            if pan:
+                rep.violation(f"panic:build:exports:{bn}", {"package": q, "stderr": err})
+            if not ok:
+                sep_ok, why = False, f"build {q}: {err}"
+                break
+        if sep_ok:
+            ok, err, pan = cli(["link", "--input", f"{bp}/out/Lib.core", f"{bp}/out/Main.core", "--output", f"{bp}/out/linked.go"])
+            steps += 1
+            if pan:
+                rep.violation(f"panic:link:exports:{bn}", {"stderr": err})
+            if not ok:
+                sep_ok, why = False, "link: " + err
+        exported += 1
+        if (a["verdict"] == "ok") != sep_ok:
+            rep.violation(f"accepted-one-way-only:exports:{bn}", {"whole_program": a["verdict"], "whole_diagnostics": [d["msg"] for d in a.get("diags", [])][:2], "separate": "ok" if sep_ok else why})
+    rep.coverage["unusual_exports_compared"] = exported
     # ---- histories: Lib and Main are built; Lib is edited in a way that changes what Main was compiled against WITHOUT changing any
     # name or type (same-typed fields swapped, variants reordered, same-typed parameters swapped) or with it (field retyped); only Lib
     # is rebuilt; everything is linked.  Either link refuses, or what it links behaves like the whole-program compilation of the
